@@ -1,5 +1,6 @@
 import RrModel.Spec.C02
 import RrProofs.Lemmas.Strings
+import RrProofs.Lemmas.UrlSplit
 /-
   C02 — Destination URL = rule destination + wildcard capture; query kept verbatim.
 -/
@@ -140,7 +141,31 @@ theorem QueryStatement_false : ¬ QueryStatement := by
   revert this
   decide
 
+/-- **authority_fixed.** For a destination written `scheme://authority/rest` (authority free of
+    `/ ? # $` and control bytes) and EVERY captured text — whatever the client put into path or
+    query: `#`, `?`, `@`, `//`, `..`, control bytes — parsing the computed target either fails
+    (nothing is contacted) or yields exactly the rule's scheme and authority. -/
+theorem authority_fixed (d : WfDest) (hd : d.ok = true) (cap : Bytes) (u : Url.Split)
+    (h : Url.split (expectedTarget d.text cap) = some u) :
+    u.scheme = toLower d.scheme ∧ u.authority = some d.authority :=
+  Go.parse_target_authority d hd cap u h
+
+/-- the same through `createOutgoingURLs` (query and fragment overwritten from the client's URL) -/
+theorem authority_fixed_outgoing (d : WfDest) (hd : d.ok = true) (cap q frag : Bytes) (u : Url.Split)
+    (h : outgoingURL (expectedTarget d.text cap) q frag = some u) :
+    u.scheme = toLower d.scheme ∧ u.authority = some d.authority := by
+  unfold outgoingURL at h
+  cases hs : Url.split (expectedTarget d.text cap) with
+  | none => simp [hs] at h
+  | some v =>
+    simp only [hs, Option.map_some, Option.some.injEq] at h
+    subst h
+    exact authority_fixed d hd cap v hs
+
 /-! Non-vacuity -/
+example : (⟨b!"http", b!"d1.test:8080", b!"pre/$1"⟩ : WfDest).ok = true := by decide
+example : (Url.split (expectedTarget (⟨b!"http", b!"d1.test:8080", b!"pre/$1"⟩ : WfDest).text b!"a/../b?x#y@evil/")).map (·.authority)
+    = some (some b!"d1.test:8080") := by decide
 example : matchPath { path := b!"/img/*", wci := some 5, dest := b!"http://d/p/$1" } b!"/img/a%2Fb?x=1"
     = some b!"http://d/p/a%2Fb?x=1" := by decide
 example : inClassA b!"a=1&b=2" = false := by decide
